@@ -75,6 +75,13 @@ where
     loop {
       // Poll the stream until exhausted
       let this = self.as_mut().project();
+      // nobody is listening any more: stop polling the stream and end the task
+      if this.observer.as_ref().map_or(true, |o| o.is_finished()) {
+        if let Some(observer) = this.observer.take() {
+          observer.complete();
+        }
+        break Poll::Ready(NormalReturn::new(()));
+      }
       let next = ready!(this.stream.poll_next(cx));
 
       match next {
